@@ -104,6 +104,8 @@ def scan_enums(root):
 class Panic(Exception): pass
 class Infeasible(Exception): pass
 class Unmodelled(Exception): pass
+class Pass(Exception):
+    """raised by a model to decline a call (the next matching model is tried)"""
 class Inconclusive(Exception): pass
 class Cut(Exception):
     def __init__(self, labels): self.labels = labels
@@ -152,6 +154,27 @@ def deepcopy_val(v):
     return v
 
 MODELS = []
+def name_variants(n):
+    out = [n]
+    m = re.match(r"^(core|std|alloc)::(.*)$", n)
+    if m: out.append(m.group(2))
+    else: out += ["core::" + n, "std::" + n]
+    return out
+def find_models(n):
+    """all models matching the callee name (or a variant with/without the crate prefix), in registration order"""
+    res = []
+    for v in name_variants(n):
+        for rx, fn in MODELS:
+            mm = rx.match(v)
+            if mm and all(fn is not f for f, _ in res): res.append((fn, mm))
+    return res
+def dispatch_models(eng, n, g, args):
+    ms = find_models(n)
+    for fn, mm in ms:
+        try: return fn(eng, mm, g, args)
+        except Pass: continue
+    eng.unmodelled.add(n)
+    raise Unmodelled(n)
 def model(pattern):
     rx = re.compile(pattern)
     def deco(fn): MODELS.append((rx, fn)); return fn
@@ -360,6 +383,7 @@ class Engine:
         if s.startswith("copy "): return deepcopy_val(self.place_slot(fr, s[5:]).get())
         if s.startswith("move "): return self.place_slot(fr, s[5:]).get()
         if s.startswith("const "): return self.const(fr, s[6:])
+        if re.match(r"^[<\w]", s): return FnPtr(s)      # fn item named directly
         raise ValueError("operand? " + s)
 
     # ---------------- scalar ops
@@ -601,11 +625,7 @@ class Engine:
                 f = self.fns.get(f"{tr}::{m.group(4)}")   # trait default method
         if f is None:
             n, g = strip_turbofish(name)
-            for rx, fn in MODELS:
-                m = rx.match(n)
-                if m: return fn(self, m, g, args)
-            self.unmodelled.add(n)
-            raise Unmodelled(n)
+            return dispatch_models(self, n, g, args)
         fr = Frame(f)
         for i, a in zip(f.args, args): fr.locals[i] = a
         self.depth += 1
